@@ -263,6 +263,7 @@ def drive(entry, m, bufs, ins, outs, irep=0, orep=0, rec=None, tail=0, xw=False)
     terminal = False
     final = None         # (ret, total_in, op) at the terminal call; the starving tail calls come after it
     extra = 0
+    seeks = 0
     notes = []           # informational return codes (LZMA_NO_CHECK / UNSUPPORTED_CHECK / GET_CHECK) and where they came
     while True:
         if terminal:
@@ -336,6 +337,9 @@ def drive(entry, m, bufs, ins, outs, irep=0, orep=0, rec=None, tail=0, xw=False)
             continue
         if ret in (lz.NO_CHECK, lz.UNSUPPORTED_CHECK, lz.GET_CHECK):
             notes.append("%s@%d" % (lz.retname(ret), s.total_in))
+            if calls > limit:
+                problems.append("hang")
+                break
             continue
         if ret == lz.BUF_ERROR:
             if fed == n and g > 0:
@@ -346,13 +350,17 @@ def drive(entry, m, bufs, ins, outs, irep=0, orep=0, rec=None, tail=0, xw=False)
                 break
             continue
         if ret == lz.SEEK_NEEDED:
+            seeks += 1
             ip = fed = min(n, s.seek_pos)
+            if calls > limit:
+                problems.append("hang")
+                break
             continue
         terminal = True
         final = (ret, s.total_in, op)
     if final is None:
         final = (ret, s.total_in, op)
-    return dict(ret=final[0], op=final[2], tin=final[1], calls=calls, problems=problems, notes=notes)
+    return dict(ret=final[0], op=final[2], tin=final[1], calls=calls, problems=problems, notes=notes, seeks=seeks)
 
 
 def observe(m, bufs, r):
@@ -361,7 +369,7 @@ def observe(m, bufs, r):
         out += index_snapshot(m.index_out)
     if r["notes"]:
         out += ("|" + ",".join(r["notes"])).encode()
-    return dict(ret=lz.retname(r["ret"]), tin=r["tin"], olen=len(out), dig=dig(out))
+    return dict(ret=lz.retname(r["ret"]), tin=r["tin"], olen=len(out), dig=dig(out), seeks=r.get("seeks", 0))
 
 
 def expand_plan(p, n, olen):
